@@ -4,6 +4,7 @@ import (
 	"go/constant"
 	"go/token"
 	"go/types"
+	"strings"
 
 	"golang.org/x/tools/go/ssa"
 )
@@ -337,6 +338,12 @@ func (e *linEngine) interval(v ssa.Value) ival {
 			}
 		}
 	case *ssa.Extract:
+		if call, ok := x.Tuple.(*ssa.Call); ok && x.Index == 1 {
+			// the width reported by the utf8 decoders is 0..4
+			if o := CalleeObj(call); o != nil && o.Pkg() != nil && o.Pkg().Path() == "unicode/utf8" && strings.HasPrefix(o.Name(), "Decode") {
+				iv = ival{0, 4}
+			}
+		}
 		if call, ok := x.Tuple.(*ssa.Call); ok && x.Index == 0 && e.minusFn != nil && call.Call.StaticCallee() == e.minusFn {
 			a := e.interval(call.Call.Args[0])
 			// result is a-b with b >= 0 and result >= 0, or a itself
